@@ -16,7 +16,7 @@ THEOREMS = {
     'C09': ['Hl7.Heap.C09_append_list', 'Hl7.Heap.C09_append_frame', 'Hl7.Heap.C09_remove_list', 'Hl7.Heap.C09_remove_frame',
             'Hl7.Heap.C09_insert_list', 'Hl7.Heap.C09_replace_in_place', 'Hl7.Heap.C09_replace_spec',
             'Hl7.Heap.C09_set_replaces_addressed', 'Hl7.Heap.C09_set_appends_when_absent', 'Hl7.Heap.C09_removeByName', 'Hl7.Heap.C09_removeByName_absent',
-            'Hl7.Heap.childAt_listed', 'Hl7.Heap.appendP_not_pending'],
+            'Hl7.Heap.childAt_listed', 'Hl7.Heap.appendP_not_pending', 'Hl7.Heap.pyIdx_neg_length', 'Hl7.Heap.pyIdx_below', 'Hl7.Heap.pyIdx_neg_one'],
     'C10': ['Hl7.Heap.C10_append', 'Hl7.Heap.C10_remove', 'Hl7.Heap.C10_insert', 'Hl7.Heap.C10_replace', 'Hl7.Heap.C10_setParent',
             'Hl7.Heap.C10_unsetParent', 'Hl7.Heap.C10_setTrav', 'Hl7.Heap.C10_promote', 'Hl7.Heap.C10_appendP', 'Hl7.Heap.C11_appendP_materialises', 'Hl7.Heap.C10_step', 'Hl7.Heap.C10_reachable',
             'Hl7.Heap.C10_one_parent', 'Hl7.Heap.Inv.unique'],
